@@ -1,5 +1,6 @@
 SPECIFICATION Spec
 CONSTANTS
+  UDeep = 0
   MaxFeats = 2
   Mode = "update"
   NSources = 1
